@@ -12,21 +12,37 @@ ID = 'C17'
 TECHNIQUE = ('table agreement (TAB) over the switch tables of Buffer.c read with a small C statement parser (fall-through chains followed), '
              'reference comparison with the running interpreter\'s struct module, writer/reader agreement of type-group letters '
              '(Buffer.py -> Buffer.c / MemoryView.pyx), abstract evaluation of cursor-loop conditions at NUL and a path-sensitive progress check, '
-             'guard presence in the two acquisition entry points; decision table of the byte-order prefix arms by symbolic execution over prefix x host layout (rules/sC17.py)')
+             'guard presence in the two acquisition entry points; decision table of the byte-order prefix arms by symbolic execution over prefix x host layout (rules/sC17.py); '
+             'round 4: a path explorer over the parsed C (conditions decomposed along && || !, constant / copy propagation, forward gotos) for must-precede, dominance and def-use '
+             'obligations; decision tables of extracted decision code over complete finite domains (type-group letters x size equality, access mode x suboffset sign, stride class relative '
+             'to itemsize, ordering of a compared pair); symbolic execution on polynomials (contiguity validator, decimal number parser, align-up blocks on residue classes); '
+             'positional writer/reader agreement of an emitted struct initialiser; cross-site agreement on the fastest-varying axis of a declared layout; request flags evaluated with the CPython headers')
 DECIDES = ('(TAB) the five __Pyx_BufFmt_TypeCharTo* tables handle the same set of format characters, DescribeTypeChar names all of them, and every character '
            '__Pyx_BufFmt_CheckString stores as a type character is in that set; (REF) TypeCharToStandardSize equals struct.calcsize("="+c) (complex = 2x) and '
-           'TypeCharToGroup classifies signed/unsigned/float characters as the struct module does; the characters allowed after "Z" are exactly the ones '
+           'TypeCharToGroup classifies signed/unsigned/float characters as the struct module does (\'?\' = C99 _Bool = unsigned); the characters allowed after "Z" are exactly the ones '
            'whose group depends on is_complex; (NAT) signed/unsigned siblings share one size/alignment/padding expression, and the type measured by '
            'TypeCharToNativeSize is the member type of the __Pyx_st_*/__Pyx_pad_* probe structs used by TypeCharToAlignment/Padding; '
            '(GRP) every type-group letter emitted by Buffer.get_type_information_cname is matched by the format checker and consumed by '
-           '__Pyx_TypeInfoToFormat / format_from_typeinfo, and every format character __Pyx_TypeInfoToFormat emits is accepted by the checker with the '
-           'same group and size; (SCAN) every cursor loop of the format scanner is false at NUL, no loop of the scanner has a back edge (`continue` / end of body) reachable on a path '
+           '__Pyx_TypeInfoToFormat / format_from_typeinfo, every format character __Pyx_TypeInfoToFormat emits is accepted by the checker with the '
+           'same group and size, and every letter a reader tests typegroup against is one the writer emits; (SCAN) every cursor loop of the format scanner is false at NUL, no loop of the scanner has a back edge (`continue` / end of body) reachable on a path '
            'without any state change (exact non-termination witness), the main switch has a returning NUL arm; (VAL) each function that calls __Pyx_BufFmt_CheckString compares ndim and itemsize with the declared '
            'type and fails on a rejected format, after initialising the context with the same dtype; (ORDER) for each of the prefixes @ = < > ! ^ and both host byte orders '
            '(the value of __Pyx_Is_Little_Endian() is obtained by evaluating its type-punning probe under each memory layout) the prefix arm of __Pyx_BufFmt_CheckString '
-           'accepts exactly the formats in host order and stores a pack mode that __Pyx_BufFmt_ProcessTypeChunk reads back as the size/alignment mode the struct module / PEP 3118 define.')
-NOT_DECIDED = ('the format grammar itself (repeat counts, pooling, padding/offset arithmetic of __Pyx_BufFmt_ProcessTypeChunk, nested T{} records, '
-               'byte-order handling), stride/contiguity checks (__pyx_check_strides, __pyx_verify_contig), and that acquired elements read as struct.unpack '
+           'accepts exactly the formats in host order and stores a pack mode that __Pyx_BufFmt_ProcessTypeChunk reads back as the size/alignment mode the struct module / PEP 3118 define; the context starts in \'@\' mode. '
+           'Round 4: (SKIP) every successful path through an acquisition entry point runs the format check unless __pyx_typeinfo_cmp(dtype, other) was true on it or the parameter that receives the '
+           'buffer option cast (followed from Buffer.py through the macro) is set; (END) the scanner returns success at NUL only with head == NULL established after the last chunk; '
+           '(COUNT) a parsed repeat count is read before it is reset on every path of every scanner arm; (STATE) every scanner-context field that is read takes more than one value; '
+           '(POOL) the pooling condition compares every attribute a new chunk records; (CHUNK) 196-row decision table of the dtype-vs-item comparison; (EQ) no condition tells "declared quantity < buffer quantity" from ">"; '
+           '(CMP) __pyx_typeinfo_cmp compares every descriptor member the checker consults, struct fields with type and offset; (SLOT) the positional __Pyx_TypeInfo initialiser gives letters / flag macros / strings / arrays '
+           'to the members read as such, and the signed/unsigned letter choice agrees with the exporter; (DIGITS) the number parser accepts exactly digit runs, returns their decimal value (polynomial identity for 1..3 digits) and '
+           'leaves the cursor behind them; (ALIGN) both round-up blocks yield the least multiple >= offset for all residues; (CONTIG) __pyx_verify_contig demands exactly the C / Fortran strides for ndim 1..3 with symbolic extents; '
+           '(CF) is_cf_contig, the macro handed to the validator, the PyBUF_*_CONTIGUOUS requests and the unstrided index of the legacy lookup agree on the fastest axis; (AXIS) decision tables of __pyx_check_suboffsets '
+           '(PEP 3118) and the contiguous/follow rows of __pyx_check_strides, every validator consulted with its failure honoured; (ACCESS) access mode -> validator macro -> generated lookup agree on dereferencing, '
+           'run-time dereferences happen exactly for suboffset >= 0; (REQ) every buffer request contains PyBUF_FORMAT / strides / PyBUF_INDIRECT where the acquisition reads them (CPython header values).')
+NOT_DECIDED = ('the offset bookkeeping of __Pyx_BufFmt_ProcessTypeChunk as a whole (that fmt_offset advances by count x size, array extents multiply, nested T{} records and their '
+               'repetition: one dropped `fmt_offset += size` is NOT reported), the transfer of C17-DIGITS from 3 digits to arbitrarily long runs and int overflow of huge counts, '
+               'which user struct types may also be matched as complex numbers (can_be_complex), the size arithmetic of the exporter for complex types, run-time guards on buffer '
+               'length (0-sized arrays skip the axis checks: inverting that guard is not reported), the strided / non-direct rows of __pyx_check_strides, and that acquired elements read as struct.unpack '
                'would; native sizes are compared structurally, not numerically.')
 ASSUMPTIONS = ['struct module of the running interpreter is the reference for standard sizes and signedness',
                'goto is only used as a jump to a failure label (treated as leaving the loop)']
@@ -75,6 +91,8 @@ MUTATIONS = [
     ('Cython/Utility/Buffer.c', "'>'/'!' arm as if/else: `if (__Pyx_Is_Little_Endian() == 0) { ts++; mode = '='; } else { error; return NULL; } break;` (C17-ORDER silent)", None),
     ('Cython/Utility/ModuleSetupCode.c', "__Pyx_Is_Little_Endian: `return S.u8[3] == 0x01` (same probe read from the other end; C17-ORDER silent)", None),
     ('Cython/Utility/Buffer.c', "ProcessTypeChunk: De Morgan `!(enc_packmode != '@' && enc_packmode != '^')` (C17-ORDER silent)", None),
+    # round 4: 55 breaking / 18 behaviour-preserving single edits are kept as patches under /verif/mutants/C17/ (meta.json says which rule reports each);
+    # not reported: chunk-offset-not-advanced, typeinfo-complex-struct, validate-len-guard-inverted, exporter-complex-size (see NOT_DECIDED)
     ('Cython/Utility/Buffer.c', "plausible fixes of the three findings (case 'O' in TypeInfoToFormat, `++ts; continue;`, `*ts && *ts != ':'` + error) -> C17 ok", None),
 ]
 
@@ -174,7 +192,9 @@ def _struct_kind(c):
         v = struct.unpack('=' + c, bytes(n))[0]
     except struct.error:
         return None
-    if isinstance(v, bool) or not isinstance(v, (int, float)):
+    if isinstance(v, bool):
+        return 'int-unsigned'       # '?' is C99 _Bool, "an unsigned integer type" (C99 6.2.5p6); numpy exports bool_ arrays with it
+    if not isinstance(v, (int, float)):
         return 'other'
     if isinstance(v, float):
         return 'float'
@@ -462,7 +482,7 @@ class Exporter:
 
 
 def rule_grp(ctx, group, std, scanner, exporter, fmt_section_text, section_funcs, line_of):
-    r = Rule('C17-GRP', 'type-group letters emitted by Buffer.get_type_information_cname are matched by the format checker and consumed by the format exporter; exported format characters are accepted back with the same group and size', floor=33)
+    r = Rule('C17-GRP', 'type-group letters emitted by Buffer.get_type_information_cname are matched by the format checker and consumed by the format exporter; exported format characters are accepted back with the same group and size; every letter a reader tests for is written', floor=40)
     rel, var, produced = produced_letters(ctx)
     if len(produced) < 5:
         raise AnalysisError('only %d type-group letters found in get_type_information_cname' % len(produced))
@@ -484,6 +504,18 @@ def rule_grp(ctx, group, std, scanner, exporter, fmt_section_text, section_funcs
                       "get_type_information_cname emits type group '%s' but neither %s (cases %s) nor format_from_typeinfo (tests %s) handles it: "
                       "a cython.array created for that dtype (<T[:n]> pointer) exports an empty format string and cannot be acquired as T[:] again"
                       % (l, exporter.name, sorted(exporter.labels), sorted(pyx_letters)))
+    # reader side: an equality test of typegroup against a letter nobody writes is dead, and so is the handling it guards (struct descent, char exemption, ...)
+    cmp_body = ''.join(d.body for d in ctx.cat.decls.get('__pyx_typeinfo_cmp', []) if d.kind == 'func' and d.body)
+    readers = [(d.name, d.body, d.line, BUFFER_C) for d in section_funcs] + [('__pyx_typeinfo_cmp', cmp_body, line_of.get('__pyx_typeinfo_cmp', 0), BUFFER_C),
+                                                                              ('format_from_typeinfo', fmt_section_text, 0, 'Cython/Utility/MemoryView.pyx')]
+    for fname, body, line, frel in readers:
+        for m in re.finditer(r"typegroup\s*[!=]=\s*('(?:\\.|[^'\\])')", body):
+            l = P.char_value(m.group(1))
+            r.inst('reader:%s:%s' % (fname, l), sample="%s tests typegroup against '%s'" % (fname, l))
+            if l not in produced:
+                r.violate("%s:typegroup=='%s'" % (_short(fname), _show(l)), frel, line,
+                          "%s compares a type descriptor's typegroup with '%s', a letter Buffer.get_type_information_cname never writes (it writes %s): the test is always false and "
+                          "the handling it guards (e.g. the descent into struct fields) never happens, so those dtypes cannot be acquired" % (fname, _show(l), sorted(produced)))
     # round trip of the exported characters
     for l in sorted(set(produced) & exporter.labels):
         recs = exporter.emits.get(l, [])
@@ -773,4 +805,31 @@ def run(ctx):
     rules.append(dims.rule_dims(ctx))
     from ..rules import sC17
     rules.append(sC17.rule_order(ctx, _func))
+    # round 4 (rules/sC17.py, second half)
+    entry = sorted((d for v in ctx.cat.decls.values() for d in v if d.kind == 'func' and d.body and re.search(r'__Pyx_BufFmt_CheckString\s*\(', d.body)
+                    and not (d.file == 'Buffer.c' and d.section.name == SECTION)), key=lambda d: d.name)
+    rules.append(sC17.rule_skip(ctx, entry))
+    rules.append(sC17.rule_end(ctx, _func))
+    rules.append(sC17.rule_count(ctx, funcs))
+    rules.append(sC17.rule_state(ctx, funcs))
+    returned = {l for c in group.chars for e in group.map[c] for l in P.char_literals(e)}
+    rules.append(sC17.rule_chunk(ctx, _func, set(produced_letters(ctx)[2]), returned))
+    rules.append(sC17.rule_cmp(ctx, _func, funcs))
+    exp_d = _func(ctx, '__Pyx_TypeInfoToFormat')
+    readers = ['\n'.join(d.body for d in funcs), _func(ctx, '__pyx_typeinfo_cmp').body, exp_d.body, fsec.raw]
+
+    def group_of(c):
+        lits = P.char_literals(group.ret(c) or '')
+        return lits[0] if len(lits) == 1 else None
+    rules.append(sC17.rule_slot(ctx, readers, exp_d.body, group_of))
+    rc = sC17.rule_contig(ctx, _func)
+    rules.append(rc)
+    rules.append(sC17.rule_cf(ctx, sC17.rule_contig.fastest))
+    rules.append(sC17.rule_axis(ctx, _func))
+    rules.append(sC17.rule_digits(ctx, funcs))
+    rules.append(sC17.rule_eq(ctx, funcs + [_func(ctx, '__pyx_typeinfo_cmp')] + entry))
+    rules.append(sC17.rule_align(ctx, funcs))
+    rules.append(sC17.rule_access(ctx, _func))
+    rules.append(sC17.rule_req(ctx))
+    rules.append(sC17.rule_pool(ctx, _func))
     return rules
